@@ -11,7 +11,7 @@ Imported by props/c01.py."""
 import math
 from vcheck import Case, gnlist, gnmat, gzlist
 import tgen
-from props.c01_conv import (LAYOUTS, relayout, ordered_partitions, _arr, _obs_tenmat, _obs_sptenmat, _obs_coo, _sub, _gopt_nlist, _gcy,
+from props.c01_conv import (np_dtype, mk_dense_grown, LAYOUTS, relayout, ordered_partitions, _arr, _obs_tenmat, _obs_sptenmat, _obs_coo, _sub, _gopt_nlist, _gcy,
                             _gtm, _gstm2, _gcoo, _ints_dense, _lin, _resolve, _valid_request)
 
 OPS3 = {"chain", "spz", "stm_nocopy", "sptenmat_big"}
@@ -125,8 +125,8 @@ def _mk_sp(ttb, np, a):
     shp = tuple(a["shape"])
     if a.get("ctor") == "shape_only":
         return ttb.sptensor(shape=shp)
-    s = np.array(a["subs"], dtype=int).reshape((len(a["subs"]), len(shp)))
-    v = np.array(a["vals"], dtype=float).reshape((len(a["vals"]), 1))
+    s = np.array(a["subs"], dtype=int).reshape((len(a["subs"]), len(shp))).astype(np_dtype(np, a.get("sdt") or "i8"))
+    v = np.array(a["vals"], dtype=float).reshape((len(a["vals"]), 1)).astype(np_dtype(np, a.get("vdt")))
     if a.get("ctor") == "nocopy":
         return ttb.sptensor(relayout(np, s, a.get("slay")), relayout(np, v, a.get("vlay")), shp, copy=False)
     return ttb.sptensor(s, v, shp, copy=True)
@@ -140,14 +140,17 @@ def run_w3(c):
     logging.disable(logging.WARNING)             # "selected no copy but must copy" warnings of the constructors
     try:
         if c.op == "chain":
-            A = tgen.np_dense(np, a["shape"], a["data"])
+            A = tgen.np_dense(np, a["shape"], a["data"]).astype(np_dtype(np, a.get("dt")))    # fourth wave: element type
             if a.get("via") == "flat":
                 A = np.reshape(A, (A.size,), order="F")
             elif a.get("via") == "mat":
                 A = np.reshape(A, (a["shape"][0], A.size // a["shape"][0]), order="F")
             A = relayout(np, A, a["lay"])
             keep = A.copy()
-            T = ttb.tensor(A, tuple(a["shape"]) if a["give_shape"] else None, copy=a["copy"])
+            if a.get("grow"):                    # fourth wave: the history starts from a tensor GROWN by out-of-bounds assignments
+                T = mk_dense_grown(ttb, np, a["shape"], a["data"], a["grow"])
+            else:
+                T = ttb.tensor(A, tuple(a["shape"]) if a["give_shape"] else None, copy=a["copy"])
             o = {"t": tgen.obs_dense(np, T)}
             M = T.to_tenmat(_arr(np, a["rd"]), _arr(np, a["cd"]))
             o["tm"] = _obs_tenmat(np, M)
@@ -179,8 +182,10 @@ def run_w3(c):
             o["s_after"] = tgen.obs_sparse(np, S)
             return o
         if c.op == "stm_nocopy":
-            subs = np.array(a["subs"], dtype=int).reshape((len(a["subs"]), 2))
-            vals = np.array(a["vals"], dtype=float).reshape((len(a["vals"]), 1))
+            subs = np.array(a["subs"], dtype=int).reshape((len(a["subs"]), 2)).astype(np_dtype(np, a.get("sdt") or "i8"))
+            vals = np.array(a["vals"], dtype=float).reshape((len(a["vals"]), 1)).astype(np_dtype(np, a.get("vdt")))
+            if a.get("slay") or a.get("vlay"):
+                subs, vals = relayout(np, subs, a.get("slay")), relayout(np, vals, a.get("vlay"))
             M = ttb.sptenmat(subs, vals, _arr(np, a["rd"]), _arr(np, a["cd"]), tuple(a["tshape"]), copy=False)
             return {"ok": _obs_sptenmat(np, M), "back": _sub(lambda: tgen.obs_sparse(np, M.to_sptensor())),
                     "full": _sub(lambda: _obs_tenmat(np, M.full())), "coo": _sub(lambda: _obs_coo(np, M.double())),
